@@ -1,12 +1,12 @@
 package main
 
 import (
-	"os"
 	"fmt"
-	"go/token"
 	"go/ast"
 	"go/constant"
+	"go/token"
 	"go/types"
+	"os"
 	"sort"
 	"strings"
 
@@ -156,12 +156,12 @@ func (c *Ctx) constInt(pkg, name string) (int64, bool) {
 }
 
 type handlerInfo struct {
-	fn      *ssa.Function
-	gates   map[string]bool // constant method names passed to getDBFromCtx
-	dbCalls map[string]bool // database.DB methods invoked on a selected database
-	sysCalls map[string]bool // database.DB methods invoked on the server's own system database
+	fn         *ssa.Function
+	gates      map[string]bool // constant method names passed to getDBFromCtx
+	dbCalls    map[string]bool // database.DB methods invoked on a selected database
+	sysCalls   map[string]bool // database.DB methods invoked on the server's own system database
 	writeCalls map[string]bool
-	writes  bool
+	writes     bool
 }
 
 // documented exceptions: methods of the system-database allow-list that are write-class by design
@@ -427,11 +427,11 @@ func (c *Ctx) serviceHandlers() map[string]*handlerInfo {
 
 // handlers that reach a database without getDBFromCtx; each carries its own documented check
 var nonGatedDBHandlers = map[string]string{
-	"DatabaseList":   "lists only the databases returned by listLoggedInUserDatabases (permission-aware); checked below",
-	"DatabaseListV2": "lists only the databases returned by listLoggedInUserDatabases (permission-aware); checked below",
-	"ServerInfo":     "reports the aggregate transaction count of all databases (no per-database data)",
-	"UnloadDatabase": "database administration: admin rule below",
-	"UpdateDatabase": "database administration: delegates to UpdateDatabaseV2",
+	"DatabaseList":     "lists only the databases returned by listLoggedInUserDatabases (permission-aware); checked below",
+	"DatabaseListV2":   "lists only the databases returned by listLoggedInUserDatabases (permission-aware); checked below",
+	"ServerInfo":       "reports the aggregate transaction count of all databases (no per-database data)",
+	"UnloadDatabase":   "database administration: admin rule below",
+	"UpdateDatabase":   "database administration: delegates to UpdateDatabaseV2",
 	"UpdateDatabaseV2": "database administration: admin rule below",
 }
 
@@ -452,7 +452,9 @@ func c18NonGated(c *Ctx, name string, h *handlerInfo) {}
 func c18Admin(c *Ctx, handlers map[string]*handlerInfo) {
 	r := "C18.2/admin-handlers"
 	authz := anyEdge(
-		whenCond(true, func(a string) bool { return strings.HasSuffix(a, "#1.IsSysAdmin") && strings.Contains(a, "getLoggedInUserdataFromCtx") }),
+		whenCond(true, func(a string) bool {
+			return strings.HasSuffix(a, "#1.IsSysAdmin") && strings.Contains(a, "getLoggedInUserdataFromCtx")
+		}),
 		whenCond(true, func(a string) bool {
 			return (strings.HasPrefix(a, "call:pkg/auth.(*User).HasPermission[") || strings.HasPrefix(a, "call:pkg/auth.(*User).HasAtLeastOnePermission[")) && strings.Contains(a, "getLoggedInUserdataFromCtx")
 		}),
@@ -477,7 +479,9 @@ func c18Admin(c *Ctx, handlers map[string]*handlerInfo) {
 	// that very database: being admin of some other database (HasAtLeastOnePermission) is not enough
 	rdb := "C18.2/rights-on-named-database-need-admin-there"
 	onNamed := anyEdge(
-		whenCond(true, func(a string) bool { return strings.HasSuffix(a, "#1.IsSysAdmin") && strings.Contains(a, "getLoggedInUserdataFromCtx") }),
+		whenCond(true, func(a string) bool {
+			return strings.HasSuffix(a, "#1.IsSysAdmin") && strings.Contains(a, "getLoggedInUserdataFromCtx")
+		}),
 		func(b *ssa.BasicBlock, succ int) bool {
 			if len(b.Instrs) == 0 {
 				return false
@@ -595,7 +599,9 @@ func c18Gate(c *Ctx) {
 	authOff := whenCond(false, func(a string) bool { return hasFieldSuffix(a, "Options.auth") || strings.HasSuffix(a, ".auth") })
 	// (a) the system database guard: ind == sysDBIndex && !IsMaintenanceMethod(m) -> denied
 	sysGuard := anyEdge(
-		whenCond(false, func(a string) bool { return strings.Contains(a, "getLoggedInUserdataFromCtx") && strings.Contains(a, " == ") && strings.Contains(a, "#0") }),
+		whenCond(false, func(a string) bool {
+			return strings.Contains(a, "getLoggedInUserdataFromCtx") && strings.Contains(a, " == ") && strings.Contains(a, "#0")
+		}),
 		whenCond(true, func(a string) bool { return strings.HasPrefix(a, "call:pkg/auth.IsMaintenanceMethod(param:methodName") }),
 	)
 	q := &pathQ{fn: f, fromEntry: true, to: succ, barrier: anyEdge(authOff, sysGuard)}
@@ -1120,7 +1126,9 @@ func c18AccountOwnership(c *Ctx) {
 	r := "C18.10/account-ownership-not-transferred"
 	n := 0
 	isSys := whenCond(true, atomContains("IsSysAdmin"))
-	isCreator := whenCond(true, func(a string) bool { return strings.Contains(a, "CreatedBy") && strings.Contains(a, "Username") && strings.Contains(a, "==") })
+	isCreator := whenCond(true, func(a string) bool {
+		return strings.Contains(a, "CreatedBy") && strings.Contains(a, "Username") && strings.Contains(a, "==")
+	})
 	for _, f := range c.allFns {
 		if !fnInPkgs(f, []string{"pkg/server"}) || len(f.Blocks) == 0 {
 			continue
